@@ -9,9 +9,20 @@ package dag
 //@   props C07 C08
 //@   nopanic
 //@   requires repo != nil && def.OperationUnmarshaler != nil
-//@   modifies nothing
+//@   modifies openpgp.sigChecks, openpgp.lastKeyring, openpgp.lastSigned, openpgp.lastSignature, openpgp.lastSigOK, identity.entityKey
 //@   opt trusted_frame
 //@   ensures [pack-or-error] result1 == nil ==> result != nil
+// C08: a pack whose author has keys in force at the pack's edit time (on the edit clock of the entity's
+// namespace) is only returned after a signature check, over the commit's own signed data and
+// signature, against a keyring made of exactly those keys, that succeeded.
+//@   let vk = identity.keysInForce(result.Author, def.Namespace + "-edit", result.EditTime)
+//@   let kr = openpgp.lastKeyring.(openpgp.EntityList)
+//@   ensures [signature-required] result1 == nil && len(vk) > 0 ==> openpgp.lastSigOK && openpgp.lastSigned == commit.SignedData && openpgp.lastSignature == commit.Signature
+//@   ensures [keyring-is-keys-in-force] result1 == nil && len(vk) > 0 ==> typeof(openpgp.lastKeyring) == type[openpgp.EntityList] && len(kr) == len(vk) && (forall j int :: { kr[j] } 0 <= j && j < len(vk) ==> identity.entityKey[kr[j]] == vk[j])
+//@   loop 3
+//@     invariant len(keyring) == rangeindex + 1
+//@     invariant keyring == nil || fresh(keyring)
+//@     invariant forall j int :: { keyring[j] } 0 <= j && j < len(keyring) ==> allocated(keyring[j]) && identity.entityKey[keyring[j]] == keys[j]
 
 // Definition.OperationUnmarshaler is a function-typed field: the contract below is what callers assume
 // of it; bug.operationUnmarshaler (the implementation used for bugs) is verified against the same clause.
